@@ -337,6 +337,31 @@ pub fn enumerate(tier: Tier, mut f: impl FnMut(SubCase)) {
                     }
                 }
             }
+            // beyond the complete space: structured permutations and fan-outs of larger windows
+            let big: Vec<usize> = if tier.thorough() { (6..=12).collect() } else { vec![6, 7, 9] };
+            for n in big {
+                let mut maps: Vec<Vec<usize>> = Vec::new();
+                for r in 1..n {
+                    maps.push((0..n).map(|i| (i + r) % n).collect()); // one cycle (or several when gcd > 1)
+                }
+                maps.push((0..n).rev().collect()); // reversal: n/2 two-cycles
+                maps.push((0..n).map(|i| i ^ 1).map(|i| i.min(n - 1)).collect()); // adjacent swaps
+                maps.push((0..n).map(|i| if i + 2 >= n { 0 } else { i + 1 }).collect()); // chain into a fan-out of variable 0
+                maps.push(vec![n - 1; n]); // everything from the last variable
+                maps.push((0..n).map(|i| if i < n / 2 { (i + 1) % (n / 2) } else { n / 2 + (i - n / 2 + 1) % (n - n / 2) }).collect()); // two disjoint cycles
+                maps.push((0..n).map(|i| if i == 0 { n - 1 } else if i == n - 1 { 0 } else { i }).collect()); // swap of the two ends
+                for pat in 0..3 {
+                    let obj: Vec<bool> = (0..n).map(|i| match pat { 0 => false, 1 => true, _ => i % 2 == 1 }).collect();
+                    for map in &maps {
+                        for alias in [false, true] {
+                            if alias && pat == 0 {
+                                continue;
+                            }
+                            f(SubCase { arch, off, obj: obj.clone(), map: map.clone(), alias });
+                        }
+                    }
+                }
+            }
         }
     }
 }
